@@ -304,7 +304,7 @@ func init() {
 func c02Jobs(tier string) []*Job {
 	var js []*Job
 	add := func(set, k, methods, symlen, pool int) {
-		if !(tier != "thorough" && k >= 2 && symlen == 0 && set > 0) {
+		if !(k >= 2 && symlen == 0 && set > 0) {
 			js = append(js, &Job{Harness: "C02History", Params: map[string]int{"set": set, "k": k, "methods": methods, "symlen": symlen, "pool": pool, "iter": 1}})
 		}
 		if k >= 2 && symlen == 0 {
@@ -314,31 +314,11 @@ func c02Jobs(tier string) []*Job {
 	}
 	starts := []int{-1, 0, 6, 11, 16, 17, 19}
 	if tier == "thorough" {
+		// everything of the quick tier, one more start set, three writes from the empty router, longer symbolic patterns
 		starts = []int{-1, 0, 1, 6, 11, 16, 17, 19}
 	}
 	for _, s := range starts {
-		if tier == "thorough" && s == 16 {
-			add(s, 1, 4, 0, 18)
-			add(s, 2, 2, 0, 4)
-			add(s, 1, 2, 3, 18)
-		} else if tier == "thorough" {
-			pl := 8
-			if s == 6 || s == 11 {
-				pl = 6
-			}
-			add(s, 2, 2, 0, pl)
-			if s <= 0 {
-				add(s, 3, 2, 0, 2)
-			}
-			for n := 1; n <= 4; n++ {
-				if n <= 3 || s <= 0 {
-					add(s, 1, 2, n, 18)
-				}
-			}
-			if s <= 0 {
-				add(s, 2, 2, 3, 6)
-			}
-		} else if s == 16 {
+		if s == 16 {
 			// 60-sibling fan-out: one write only (observations are quadratic in the number of routes)
 			add(s, 1, 2, 0, 12)
 			add(s, 1, 2, 1, 12)
@@ -351,6 +331,10 @@ func c02Jobs(tier string) []*Job {
 			maxn := 3
 			if s <= 0 {
 				maxn = 4
+			}
+			if tier == "thorough" && s == -1 {
+				maxn = 5
+				add(s, 3, 2, 0, 2)
 			}
 			for n := 1; n <= maxn; n++ {
 				add(s, 1, 2, n, 12)
@@ -374,7 +358,7 @@ func init() {
 		Jobs: c02Jobs,
 		Bounds: func(tier string) string {
 			if tier == "thorough" {
-				return "8 start sets (empty and hand-written corpus sets incl. hostnames and the 60-sibling fan-out) x histories of k<=2 writes (k=3 from two of the sets; Handle, HandleRoute, Update, UpdateRoute, Delete, Truncate(all), Truncate(method)) issued directly or in a committed/aborted transaction, methods {GET,FOO}, patterns from a 6..8-entry pool (2 for k=3) (and two 4-entry pools: hostnames that are label-wise prefixes of each other, from the empty router; a route on an existing branching node plus routes below it, from the siblings-3 set); plus a first write with a symbolic pattern of 1..3 arbitrary bytes (1..4 from two of the sets); every reader checked after every step"
+				return "8 start sets (empty and hand-written corpus sets incl. hostnames and the 60-sibling fan-out) x histories of k<=2 writes (k=3 with a 2-entry pool from the empty router; Handle, HandleRoute, Update, UpdateRoute, Delete, Truncate(all), Truncate(method)) issued directly or in a committed/aborted transaction, methods {GET,FOO}, patterns from a 6..8-entry pool (and two 4-entry pools: hostnames that are label-wise prefixes of each other, from the empty router; a route on an existing branching node plus routes below it, from the siblings-3 set); plus a first write with a symbolic pattern of 1..3 arbitrary bytes (1..4 from the static-basic set, 1..5 from the empty router) and 2 bytes for k=2; every reader checked after every step, with and without an iterator on the open transaction between the steps"
 			}
 			return "7 start sets x histories of k<=2 writes (7 kinds) direct / committed txn / aborted txn, with and without an iterator on the open transaction between the steps, methods {GET,FOO}, 6..8-entry pattern pool (12 for k=1), and two 4-entry pools (hostnames that are label-wise prefixes of each other, from the empty router; a route on an existing branching node plus routes below it, from the siblings-3 set); plus a first write with a symbolic pattern of 1..4 arbitrary bytes (k=1; 1..3 on four of the sets) and 2 bytes (k=2); every reader (Has, Route, Len, Reverse, Iter.All/Methods/Prefix per method and over all methods/Routes/Reverse) checked after every step, on the router, on the open transaction and on a snapshot of it"
 		},
